@@ -44,6 +44,7 @@ pub fn run() {
                 let cmd = req.get("cmd").and_then(|c| c.as_str()).unwrap_or("").to_string();
                 match catch_unwind(AssertUnwindSafe(|| match cmd.as_str() {
                     "edits" => cmd_edits(&req),
+                    "testrun" => crate::verif_c18::cmd_testrun(&req),
                     _ => json!({"bad_request": "unknown cmd"}),
                 })) {
                     Ok(v) => v,
